@@ -443,7 +443,7 @@ class C12(Prop):
     id = "C12"
     corr_module = "Corr.C12Corr"
     quick_n = 2300
-    thorough_n = 30000
+    thorough_n = 20000
     shard_size = 400
     rule = ("texts over {a, b, newline} plus, with lower weight, carriage return (CRLF cut between CR and LF) "
             "and an upper-case letter (length <= 7), random compositions into reads, 1-2 streams randomly "
@@ -454,7 +454,7 @@ class C12(Prop):
             "password; long texts (600-1100 filler characters around the occurrences) with a few chosen "
             "cuts; driven through the watcher objects, Runner.run and Context.sudo.  non-trivial = some "
             "watcher pattern occurs in a stream's text and that stream has >= 2 reads.  thorough adds every "
-            "composition of every text of length <= 6 over {a,b,newline} (and every 27th of length 7) x the "
+            "composition of every text of length <= 6 over {a,b,newline} (and every 40th of length 7) x the "
             "patterns occurring in it, every composition of length <= 5 over {a, CR, LF}, and length <= 4 x 4 "
             "failing pairs")
     trusted_base = [
@@ -592,7 +592,7 @@ class C12(Prop):
         if tier == "thorough":
             # length 7: every 27th text, all 64 compositions
             for k, tup in enumerate(itertools.product(ALPHA, repeat=7)):
-                if k % 27:
+                if k % 40:
                     continue
                 s = "".join(tup)
                 for comp in compositions(s):
